@@ -163,6 +163,15 @@ def run_selftest(pid):
            'detected': sum(1 for r in res if r['status'] == 'detected'),
            'missed': [r['id'] for r in res if r['status'] == 'missed'],
            'skipped': [{'id': r['id'], 'why': r.get('detail', '')[:120]} for r in res if r['status'] in ('skipped', 'builderror', 'error')]}
+    # the other direction: behaviour-preserving refactorings of the anchored code must leave this property's check silent
+    if os.environ.get('VERIF_NO_BENIGN') != '1':
+        try:
+            bres = st.run_all(prop=pid, jobs=jobs, benign=True)
+            out['benign'] = {'variants': len(bres), 'silent': sum(1 for r in bres if r['status'] == 'silent'),
+                             'false_alarms': [{'id': r['id'], 'reported': r.get('reported', [])[:3]} for r in bres if r['status'] == 'falsealarm'],
+                             'skipped': [r['id'] for r in bres if r['status'] in ('skipped', 'builderror', 'error')]}
+        except Exception as e:
+            out['benign'] = {'error': '%s' % e}
     return out
 
 
